@@ -20,11 +20,32 @@ func TestVerif(t *testing.T) {
 		if !ok {
 			panic(lib.HarnessError{Msg: "package engine has no harness for " + env.Check})
 		}
+		if env.Thorough() && env.Replay == "" && twoPhase[env.Check] {
+			// iterate the bound: the quick tier's bounds are explored completely
+			// first, so that a deadline inside the deeper exploration still
+			// leaves a stated, fully covered bound
+			q := *env
+			q.Tier = "quick"
+			f(&q, rep)
+			phase1 := rep.Bounds
+			n1 := rep.Evaluations
+			rep.Bounds = map[string]any{}
+			complete1 := rep.Exhaustive
+			f(env, rep)
+			rep.Bounds["phase 1 (bounds of the quick tier, explored first)"] = map[string]any{"bounds": phase1, "evaluations": n1, "completed": complete1}
+			if !rep.Exhaustive && complete1 {
+				rep.Notes = append(rep.Notes, "the deadline fell inside phase 2; phase 1 (the quick tier's bounds) was covered completely")
+			}
+			return
+		}
 		f(env, rep)
 	})
 }
 
 var verifChecks = map[string]func(*lib.Env, *lib.Report){}
+
+// twoPhase: explorer-based checks whose thorough tier may meet its deadline.
+var twoPhase = map[string]bool{"C01": true, "C02": true, "C03": true, "C04": true, "C11": true, "C13": true, "C14": true, "C16": true, "C17": true}
 
 // explore runs body under the DFS explorer with the standard sharding and
 // reporting, or replays one execution when the driver asked for a replay.
@@ -44,6 +65,7 @@ func explore(env *lib.Env, rep *lib.Report, bound int, body lib.Body) {
 		rep.Evaluations = 1
 		return
 	}
+	failuresBefore := len(rep.Failures)
 	ex := lib.Explore(body, lib.Options{Bound: bound, Shard: env.Shard, NShards: env.NShards, SplitDepth: 2,
 		Journal: env.Journal, Deadline: env.Expired, OnExec: rep.OnExec})
 	rep.ChoicePts += ex.Points
@@ -52,7 +74,7 @@ func explore(env *lib.Env, rep *lib.Report, bound int, body lib.Body) {
 		rep.Notes = append(rep.Notes, "soft deadline reached before the exploration finished; the bound was not completed")
 	}
 	// determinism self-test: re-run the first failure (if any) twice
-	for _, f := range rep.Failures {
+	for _, f := range rep.Failures[failuresBefore:] {
 		for i := 0; i < 2; i++ {
 			x := lib.RunOnce(body, f.Choices)
 			if x.Fail == nil || x.Fail.Kind != f.Kind {
